@@ -11,6 +11,7 @@ import impl
 import lib
 import ginspecttie
 import dispatchtie
+import c17_hints
 from lib import coq_bool, coq_list, coq_string
 import c17_cat
 from c17_cat import Cat, MODNAME
@@ -19,6 +20,7 @@ COQ_TARGETS = ["theories/Model/Inspect.vo", "theories/Model/InspectEq.vo", "theo
                "theories/Model/InspectSpec.vo", "theories/Proofs/InspectLemmas.vo"]
 COQ_TARGETS = COQ_TARGETS + [t for t in ginspecttie.COQ_TARGETS if t not in COQ_TARGETS]
 COQ_TARGETS = COQ_TARGETS + [t for t in dispatchtie.COQ_TARGETS if t not in COQ_TARGETS]
+COQ_TARGETS = COQ_TARGETS + [t for t in c17_hints.COQ_TARGETS if t not in COQ_TARGETS]
 
 # Work-around (lib.py is not mine): base_make hands coq_makefile an ABSOLUTE project path, so the generated
 # dependency file names absolute .vo paths while the make targets are relative: make does not connect them and
@@ -27,7 +29,8 @@ COQ_TARGETS = COQ_TARGETS + [t for t in dispatchtie.COQ_TARGETS if t not in COQ_
 _orig_base_make = lib.Run.base_make
 
 
-_CHAIN = ["Model/Inspect", "Model/InspectCache", "Model/InspectSpec", "Model/InspectEq", "Proofs/InspectLemmas"]
+_CHAIN = ["Model/Inspect", "Model/InspectCache", "Model/InspectSpec", "Model/InspectEq", "Proofs/InspectLemmas",
+          "Model/InspectHints", "Proofs/InspectHintsLemmas"]
 
 
 def _drop_stale_vo():
@@ -664,6 +667,7 @@ def correspond(run: lib.Run):
     correspond_history(run, cat)
     lib.run_tie(run, dispatchtie, streams=True, core=False)      # first-match dispatch over _HANDLERS by this model's predicates (dyn/Dispatch)
     lib.run_tie(run, ginspecttie)      # the graph model's copies of the inspection predicates agree with this model (dyn/GraphInspect)
+    lib.run_tie(run, c17_hints)        # get_type_hints / signature helpers: the field-list theorem and its streams (dyn/C17/C17Hints.v)
 
 
 # ----------------------------------------------------------------------------------
@@ -742,6 +746,11 @@ def search(run: lib.Run, broken):
             fails += O.check_spelling_pair(da, a, db, b, list(O.ORIGIN_FAMILY) + ["issequencetype", "iscollectiontype"], tag)
         else:
             fails += O.check_spelling_pair(da, a, db, b, O.SPELLING_FREE + ["origin"] if tag == "generic-spelling" else O.UNION_SPELLING_FREE, tag)
+    try:
+        fails += c17_hints.search(run)          # the hints oracle (typing / dataclasses / inspect vs the signature helpers)
+    except Exception as e:  # noqa: BLE001 - a crashing oracle must not hide the other failures
+        run.notes.append(f"hints oracle crashed: {e!r}")
+        run.oblige("hints:oracle ran to completion", False, repr(e)[:300])
     for f in fails:
         f["key"] = failure_key(f)
     # keep the smallest input per (site, symptom, regions)
@@ -766,6 +775,8 @@ def search(run: lib.Run, broken):
 
 def replay(payload):
     import c17_oracle as O
+    if payload.get("kind") == "hints":
+        return c17_hints.replay(payload)
     cat = get_cat()
     inp = payload["input"]
     site = payload.get("site")
